@@ -261,6 +261,7 @@ func (c *Client) forgetSubscription_NeedsSubMuxLock(ctx context.Context, id uint
 	if len(c.subs) == 0 {
 		// todo(fs): are we holding the lock too long here?
 		// todo(fs): consider running this as a go routine
+		verifPoint("cl.forget.beforePause")
 		c.pauseSubscriptions(ctx)
 	}
 }
@@ -482,6 +483,7 @@ func (c *Client) publish(ctx context.Context) error {
 		return err
 
 	default:
+		verifPoint("cl.publish.beforeLock")
 		c.subMux.Lock()
 		// handle pending acks for all subscriptions
 		c.handleAcks_NeedsSubMuxLock(res.Results)
